@@ -207,3 +207,71 @@ func replayC17Doc(rc *runCtx, h *harness, v *interp.Violation, file string) (boo
 	}
 	return false, fmt.Sprintf("`%s doc` lists all %d rule groups that have examples", bin, len(groups))
 }
+
+// replayC08Variants: the real binaries on a scratch module whose package has the test
+// files the model asks for; the CLI must report every file's diagnostics exactly once
+// and agree with the analyzer binary.
+func replayC08Variants(rc *runCtx, h *harness, v *interp.Violation, file string) (bool, string) {
+	fe, err := buildFrontends()
+	if err != nil {
+		return false, err.Error()
+	}
+	defer fe.close()
+	cli, ana := "go-critic", "go-critic-analysis"
+	if strings.Contains(h.Pkg, "gocritic") {
+		cli, ana = "gocritic", "gocritic-analysis"
+	}
+	dir, err := os.MkdirTemp("", "gsx-variants-")
+	if err != nil {
+		return false, err.Error()
+	}
+	defer os.RemoveAll(dir)
+	body := "func %s(s string) bool { return len(s) == 0 == true }\n" // boolExprSimplify-free, uses a default checker below
+	_ = body
+	write := func(name, src string) { os.WriteFile(filepath.Join(dir, name), []byte(src), 0o644) }
+	write("go.mod", "module example.com/p\n\ngo 1.21\n")
+	finding := func(fn string) string {
+		return "func " + fn + "(x []int) []int {\n\tx = append(x, 1)\n\tx = append(x, 2)\n\treturn x\n}\n" // appendCombine
+	}
+	write("a.go", "package p\n\n"+finding("A"))
+	if v.Model["in-package tests?b"].B {
+		write("a_test.go", "package p\n\n"+finding("inTest"))
+	}
+	if v.Model["external tests?b"].B {
+		write("x_test.go", "package p_test\n\n"+finding("extTest"))
+	}
+	run := func(bin string, args ...string) (map[string]int, string) {
+		cmd := exec.Command(filepath.Join(fe.dir, bin), args...)
+		cmd.Dir = dir
+		cmd.Env = append(os.Environ(), "GOFLAGS=-mod=mod", "GOPROXY=off", "GOSUMDB=off", "GOTOOLCHAIN=local")
+		out, _ := cmd.CombinedOutput()
+		set := map[string]int{}
+		for _, l := range strings.Split(string(out), "\n") {
+			if m := diagLineRE.FindStringSubmatch(strings.TrimSpace(l)); m != nil {
+				set[fmt.Sprintf("%s:%s:%s: %s: %s", filepath.Base(m[1]), m[2], m[3], m[4], m[5])]++
+			}
+		}
+		return set, string(out)
+	}
+	a, rawA := run(cli, "check", "-enable=appendCombine", "-disable=", ".")
+	b, _ := run(ana, "-enable=appendCombine", "-disable=", ".")
+	want := 1
+	if v.Model["in-package tests?b"].B {
+		want++
+	}
+	if v.Model["external tests?b"].B {
+		want++
+	}
+	if len(a) != want {
+		return true, fmt.Sprintf("%s check . on a package with %d source files (each with one finding) reports %d distinct diagnostics: %s", cli, want, len(a), firstLines(rawA, 4))
+	}
+	for k, n := range a {
+		if n != 1 {
+			return true, fmt.Sprintf("%s reports %q %d times", cli, k, n)
+		}
+	}
+	if diff := diffSets(a, b); diff != "" && len(b) > 0 {
+		return true, "the command and the analyzer binary differ: " + diff
+	}
+	return false, "the real binaries analyse every file once"
+}
